@@ -409,6 +409,22 @@ func (r *Run) FailMatch(class string, match map[string]any, format string, a ...
 		map[string]any{"knobs": r.K, "config": r.Cfg, "case": r.Case, "history_tail": h, "model_state": r.M.String()}, match)
 }
 
+// ViolateSoft records a violation without stopping the history (used for
+// classes that are listed as known findings so that exploration continues).
+func (r *Run) ViolateSoft(class string, match map[string]any, format string, a ...any) {
+	if r.soft == nil {
+		r.soft = map[string]int{}
+	}
+	r.soft[class]++
+	if r.soft[class] > 2 {
+		r.count("soft_violations_not_recorded_again", 1)
+		return
+	}
+	keep := r.failed
+	r.FailMatch(class, match, format, a...)
+	r.failed = keep
+}
+
 // Log appends to the history log.
 func (r *Run) Log(format string, a ...any) { r.log(format, a...) }
 
@@ -494,6 +510,7 @@ type Run struct {
 	sawShadow  bool
 	ingestN int
 	OptsHook func(o *pebble.Options)
+	soft     map[string]int
 	NoSyncWrites bool
 	Extra    []ExtraStep // additional weighted steps supplied by other engines
 	NoFinalClose bool
